@@ -804,9 +804,43 @@ func runPolygon(c *vkit.Collector, rng *vkit.Rng, k int, withT bool) {
 	}
 	r := math.Pow(10, rng.Range(-4, 0))
 	var loopsPts [][]s2.Point
-	for j, m := range ns {
-		rr := r * math.Pow(0.5, float64(j))
-		loopsPts = append(loopsPts, starPoints(ctr, m, func(int) float64 { return rr }))
+	var ctrs []s2.Point // a point inside loop j by construction
+	multi := k%3 == 2
+	if !multi {
+		// nested: shell, hole, island around one centre
+		for j, m := range ns {
+			rr := r * math.Pow(0.5, float64(j))
+			loopsPts = append(loopsPts, starPoints(ctr, m, func(int) float64 { return rr }))
+			ctrs = append(ctrs, ctr)
+		}
+	} else {
+		// several top-level shells, the SMALL one first in loop order (Polygon.Invert inverts
+		// the largest shell and must keep the shells stored before it), the last loop a hole
+		// of the big shell when there are three
+		if r > 0.5 {
+			r = 0.5
+		}
+		cl = "multi-shell/" + cl
+		x, y := frame(ctr)
+		rSmall, rBig := 0.3*r, r
+		d := 2.2 * (rSmall + rBig)
+		th := rng.Range(0, 2*math.Pi)
+		dir := x.Mul(math.Cos(th)).Add(y.Mul(math.Sin(th)))
+		ctrB := s2.Point{Vector: ctr.Mul(math.Cos(d)).Add(dir.Mul(math.Sin(d))).Normalize()}
+		loopsPts = append(loopsPts, starPoints(ctr, ns[0], func(int) float64 { return rSmall }))
+		ctrs = append(ctrs, ctr)
+		loopsPts = append(loopsPts, starPoints(ctrB, ns[1], func(int) float64 { return rBig }))
+		ctrs = append(ctrs, ctrB)
+		if nl == 3 {
+			if rng.Bool() { // hole of the big shell
+				loopsPts = append(loopsPts, starPoints(ctrB, ns[2], func(int) float64 { return 0.4 * rBig }))
+				ctrs = append(ctrs, ctrB)
+			} else { // a third shell, smaller still, on the other side of the big one
+				ctrC := s2.Point{Vector: ctrB.Mul(math.Cos(d)).Add(ctrB.Cross(dir).Normalize().Mul(math.Sin(d))).Normalize()}
+				loopsPts = append(loopsPts, starPoints(ctrC, ns[2], func(int) float64 { return 0.2 * r }))
+				ctrs = append(ctrs, ctrC)
+			}
+		}
 	}
 	mk := func() *s2.Polygon {
 		var ls []*s2.Loop
@@ -844,11 +878,33 @@ func runPolygon(c *vkit.Collector, rng *vkit.Rng, k int, withT bool) {
 	Pinv2.Invert()
 
 	var probes []s2.Point
-	for _, lp := range loopsPts {
-		probes = append(probes, loopProbes(rng, lcase{"poly", lp, &ctr}, cells)...)
+	for j, lp := range loopsPts {
+		pr := loopProbes(rng, lcase{"poly", lp, &ctrs[j]}, cells)
+		if len(pr) > 90/len(loopsPts) {
+			pr = pr[:90/len(loopsPts)]
+		}
+		probes = append(probes, pr...)
 	}
-	if len(probes) > 90 {
-		probes = probes[:90]
+	// Invert twice gives the polygon back; building from oriented loops gives the same polygon,
+	// and from the oppositely oriented loops its complement (PolygonFromOrientedLoops inverts
+	// internally)
+	Ptwice := mk()
+	Ptwice.Invert()
+	Ptwice.Invert()
+	mkOriented := func(flip bool) *s2.Polygon {
+		var ls []*s2.Loop
+		for j := 0; j < P.NumLoops(); j++ {
+			v := clone(P.Loop(j).Vertices())
+			if P.Loop(j).IsHole() != flip {
+				v = reversed(v)
+			}
+			ls = append(ls, s2.LoopFromPoints(v))
+		}
+		return s2.PolygonFromOrientedLoops(ls)
+	}
+	Por, PorC := mkOriented(false), mkOriented(true)
+	if withT {
+		runPolygonInvertT(c, k, P, Pinv)
 	}
 	in := newInterner()
 	var probeTerms []string
@@ -856,9 +912,10 @@ func runPolygon(c *vkit.Collector, rng *vkit.Rng, k int, withT bool) {
 		c.Eval(fmt.Sprintf("P%d/%d", k, pi), true)
 		// independent oracle: XOR over the loops, each by parity from the common centre (inside every loop)
 		want := false
-		okOracle := !antipodal(p, ctr)
-		for _, lp := range loopsPts {
-			want = want != parityFrom(lp, ctr, true, p)
+		okOracle := true
+		for j, lp := range loopsPts {
+			okOracle = okOracle && !antipodal(p, ctrs[j])
+			want = want != parityFrom(lp, ctrs[j], true, p)
 		}
 		brute := false
 		for j := 0; j < P.NumLoops(); j++ {
@@ -887,6 +944,15 @@ func runPolygon(c *vkit.Collector, rng *vkit.Rng, k int, withT bool) {
 		}
 		if Pinv2.ContainsPoint(p) == cp2 {
 			c.Violate("Polygon.Invert.afterBuild", "a polygon and its Invert() both contain / both miss a point", rep(p, "Invert after build"))
+		}
+		if okOracle && Pinv.ContainsPoint(p) == want {
+			c.Violate("Polygon.Invert.vsOracle", fmt.Sprintf("Invert() contains=%v, the polygon's oracle=%v", !want, want), rep(p, "Invert vs oracle"))
+		}
+		if Ptwice.ContainsPoint(p) != cp2 {
+			c.Violate("Polygon.Invert.twice", "Invert twice changes containment", rep(p, "double inversion"))
+		}
+		if okOracle && (Por.ContainsPoint(p) != want || PorC.ContainsPoint(p) == want) {
+			c.Violate("PolygonFromOrientedLoops", fmt.Sprintf("oriented loops=%v, oppositely oriented=%v, oracle=%v", Por.ContainsPoint(p), PorC.ContainsPoint(p), want), rep(p, "PolygonFromOrientedLoops"))
 		}
 		if withT && pi < 24 {
 			t := newTable(in)
@@ -933,6 +999,21 @@ func runPolygon(c *vkit.Collector, rng *vkit.Rng, k int, withT bool) {
 		c.Check(fmt.Sprintf("polygon#%d loops=%v", k, ns), zcase(vkit.App("check_polygon", vkit.List(ls), vkit.List(probeTerms))))
 	}
 	c.Sample(map[string]interface{}{"type": "polygon", "loop_sizes": ns, "probes": len(probes), "index_cells": len(cells)})
+}
+
+// [T] Polygon.Invert against the model's premise: the loops of the result are the loops of the
+// polygon with exactly one of them inverted (polygon_invert_complement then says: complement)
+func runPolygonInvertT(c *vkit.Collector, k int, P, Pinv *s2.Polygon) {
+	in := newInterner()
+	term := func(Q *s2.Polygon) string {
+		var ls []string
+		for j := 0; j < Q.NumLoops(); j++ {
+			l := Q.Loop(j)
+			ls = append(ls, fmt.Sprintf("(%s, %s)", idList(in, l.Vertices()), vkit.B(l.ContainsOrigin())))
+		}
+		return vkit.List(ls)
+	}
+	c.Check(fmt.Sprintf("Polygon.Invert#%d loops=%d", k, P.NumLoops()), zcase(vkit.App("check_polygon_invert", term(P), term(Pinv))))
 }
 
 // ---------- tilings ----------
